@@ -23,6 +23,7 @@ EXPLANATION = (
     "delegates; (LIMIT) for_each hands self.concurrency_limit() to ForEachConsumer::new; sibling agreement of every "
     "concurrency_limit impl (Limit returns its own field, FromStream None, others delegate); (OWN) the group is held by value. "
     "Together: live closure futures <= group members = count <= limit at every suspension point (argued, not measured).")
+EXPLANATION += (' (GROUP) premise re-checked here: the FutureGroup in which the closure futures are parked registers every pushed future completely (insert_pinned), polls every armed member, yields each output exactly once and reports None only when empty.')
 ASSUMPTIONS = [
     "futures_buffered::FuturesUnordered: every pushed future is polled until Ready and yielded by next() exactly once; next() -> None iff empty",
     "Ordering::Relaxed on a counter touched only from the single task that owns the consumer",
